@@ -454,3 +454,5 @@ func runWorkers(u exchanger, workers, perWorker int, tmin, tmax time.Duration, q
 	}
 	wg.Wait()
 }
+
+func releaseMsg(m *dnsmsg.Msg) { dnsmsg.ReleaseMsg(m) }
